@@ -13,10 +13,10 @@ import PallasVerif.Model.Cbor
   * `toItem` / `encode`: the `Encode` impls as construction of a CBOR concrete syntax tree with the
     minimal heads minicbor emits, byte strings longer than 64 bytes chunked (`chunks 64`).
   * `ofItem` / `decode`: the `Decode` impls read off the concrete syntax tree returned by the strict
-    L1 parser (`Cbor.parseItem`). The Rust decoder works on bytes; on every byte string that is the
-    encoding of a well-formed tree the two agree, except that for tag 102 the Rust accepts any array
-    head (`d.array()?` ignores the length) where this model demands exactly `[uint, array]` in a
-    definite array. Trailing bytes after the first item are ignored by both (`minicbor::decode`).
+    L1 parser (`Cbor.parseItem`) — a specification-level decoder. The byte-level transcription of the
+    Rust decoder (minicbor primitives, tag-102 leniency included) is `Model/PlutusDataDec.lean`;
+    `Proofs/PlutusDataDec.lean` proves that it returns what `ofItem` returns on every well-formed
+    tree `ofItem` accepts. Trailing bytes after the first item are ignored (`minicbor::decode`).
 -/
 namespace PallasVerif.PlutusData
 open PallasVerif.Cbor
